@@ -33,6 +33,11 @@ theorem type_order_matches_source : Gen.ValueOrder.dataTypeVariants =
     ["Null", "Bool", "Int16", "Int32", "Int64", "Float64", "Decimal", "Date", "Timestamp",
      "TimestampTz", "Interval", "String", "Blob", "Struct", "Vector"] := by decide
 
+/-- `struct Interval` still derives its relations over the fields months, days, ms in this order
+(the model's `DV.interval months days ms` compares / hashes them lexicographically in that order). -/
+theorem interval_fields_match_source :
+    Gen.ValueOrder.intervalFields = ["months:i32", "days:i32", "ms:i32"] := by decide
+
 example : DV.rank (.str []) = 6 ∧ DV.variantNames[6]? = some "String" := by decide
 
 /-! ## `cmp` is a total order on all values, consistent with `eq` -/
